@@ -156,8 +156,9 @@ Proof.
   destruct (alive v) eqn:Ea; [| destruct e].
   - split; [apply ko_set_stream; exact K |]. use_set_stream K. fold v in HW.
     unfold sslots in HW. cbn [sendb recvb pinned pend] in HW. rewrite pslots_app, !cnt_app in HW. lia.
-  - split; [apply ko_set_stream; exact K |]. use_set_stream K. fold v in HW.
-    unfold sslots in HW. cbn [sendb recvb pinned pend] in HW. rewrite pslots_app, !cnt_app in HW. lia.
+  - split; [eapply ko_frame; [reflexivity | reflexivity | apply ko_set_stream; exact K] |]. rewrite W_add_leaked.
+    use_set_stream K. fold v in HW.
+    unfold sslots in HW. cbn [sendb recvb pinned pend] in HW. rewrite pslots_app, !cnt_app in HW. rewrite ?cnt_nil in HW. lia.
   - split; [eapply ko_frame; [.. | exact K]; reflexivity |]. apply W_add_free.
 Qed.
 
@@ -403,7 +404,7 @@ Proof.
   intros I E. pose proof I as [K HW0]. destruct (inv_nodup n s I) as [Nf Ne]. destruct l; cbn [step] in E.
   - inversion E; subst. split; [apply (do_open_W 0 sid s K) | intro x; apply (do_open_W x sid s K)].
   - unfold do_write in E. set (k := key e sid) in *. set (v := streams s k) in *.
-    destruct (alive v); cbn [negb] in E; [| discriminate].
+    destruct (negb (alive v) && gx s); [inversion E; subst; split; [exact K | reflexivity] |].
     destruct (subsetb new (free s) && nodupb new) eqn:C; cbn [negb] in E; [| discriminate].
     apply andb_true_iff in C. destruct C as [C1 C2]. inversion E; subst; clear E.
     assert (K1 : KeysOK (set_free_ext (minus_list (free s) new) (ext s) s)) by (eapply ko_frame; [reflexivity | reflexivity | exact K]).
@@ -441,7 +442,7 @@ Proof.
   destruct (step_W n s l s' I E) as [K H]. split; [exact K |]. intro x. rewrite H. apply I.
 Qed.
 
-Lemma init_inv f n qc : Inv n (init f n qc).
+Lemma init_inv f g n qc : Inv n (init f g n qc).
 Proof.
   split; [split; [constructor | intros; reflexivity] |]. intro x. rewrite <- cnt_all. unfold all_slots. cbn [init free ext leaked q_srv q_cli].
   unfold stream_slots. cbn [init keys flat_map qslots]. rewrite !app_nil_r. reflexivity.
@@ -451,14 +452,14 @@ Lemma run_inv n h : forall s, Inv n s -> Inv n (run s h).
 Proof. induction h as [|l t IH]; intros s I; cbn [run]; [exact I | apply IH, step'_inv, I]. Qed.
 
 (* every slot is in exactly one location: the location lists, concatenated, are a permutation of the slots *)
-Theorem inv_thm f n qc h : Permutation (all_slots (run (init f n qc) h)) (iota n).
+Theorem inv_thm f g n qc h : Permutation (all_slots (run (init f g n qc) h)) (iota n).
 Proof. apply inv_perm, run_inv, init_inv. Qed.
 
-Theorem inv_nodup_cover f n qc h :
-  let s := run (init f n qc) h in
+Theorem inv_nodup_cover f g n qc h :
+  let s := run (init f g n qc) h in
   NoDup (all_slots s) /\ forall x, In x (all_slots s) <-> (0 <= x < Z.of_nat n).
 Proof.
-  intro s. pose proof (inv_thm f n qc h) as P. fold s in P. split.
+  intro s. pose proof (inv_thm f g n qc h) as P. fold s in P. split.
   - apply (Permutation_NoDup (Permutation_sym P)), iota_nodup.
   - intro x. split.
     + intro H. apply (Permutation_in _ P) in H. unfold iota in H. apply in_map_iff in H. destruct H as [y [E Hy]].
@@ -469,24 +470,25 @@ Qed.
 
 (* ================= quiescence: nothing is lost when every stream is closed ================= *)
 Definition dead_ok (v : stream) : Prop := alive v = false -> sslots v = [].
-Definition Q (f : bool) (s : st) : Prop := fx s = f /\ leaked s = [] /\ forall k, dead_ok (streams s k).
+Definition Q (f g : bool) (s : st) : Prop := (fx s = f /\ gx s = g) /\ leaked s = [] /\ forall k, dead_ok (streams s k).
 
 (* the hypothesis under which today's code gives everything back: a stream is closed only when its
    pinned list is empty (ReleasePreviousRead before Close) - void once recycle() cleans the pinned list *)
 Definition close_guard (s : st) (l : label) : Prop :=
   match l with
   | Close e sid => fx s = true \/ pinned (streams s (key e sid)) = []
+  | Write e sid _ _ => gx s = true \/ alive (streams s (key e sid)) = true     (* no write after the local Close *)
   | _ => True
   end.
 
-Lemma Q_frame f s s' : fx s' = fx s -> leaked s' = leaked s -> streams s' = streams s -> Q f s -> Q f s'.
-Proof. intros A B C (D & E & F). unfold Q. rewrite A, B, C. auto. Qed.
-Lemma Q_set_stream f k nv s : dead_ok nv -> Q f s -> Q f (set_stream k nv s).
+Lemma Q_frame f g s s' : fx s' = fx s -> gx s' = gx s -> leaked s' = leaked s -> streams s' = streams s -> Q f g s -> Q f g s'.
+Proof. intros A A' B C (D & E & F). unfold Q. rewrite A, A', B, C. auto. Qed.
+Lemma Q_set_stream f g k nv s : dead_ok nv -> Q f g s -> Q f g (set_stream k nv s).
 Proof.
   intros P (D & E & F). split; [exact D | split; [exact E |]]. intro j. cbn [set_stream streams].
   destruct (Nat.eq_dec j k) as [->|N]; [rewrite updn_eq; exact P | rewrite updn_neq by exact N; apply F].
 Qed.
-Ltac qfr := eapply Q_frame; [reflexivity | reflexivity | reflexivity |].
+Ltac qfr := eapply Q_frame; [reflexivity | reflexivity | reflexivity | reflexivity |].
 Ltac qss := apply Q_set_stream; [let Hx := fresh "Hdead" in intro Hx; cbn [alive] in Hx; try discriminate |].
 
 Lemma sslots_nil v : sslots v = [] -> sendb v = [] /\ rslots (recvb v) = [] /\ pinned v = [] /\ pslots (pend v) = [].
@@ -495,27 +497,36 @@ Proof.
   apply app_eq_nil in H. tauto.
 Qed.
 
-Lemma Q_deliver_data f e sid p s : Q f s -> Q f (deliver_data e sid p s).
-Proof. intro H. unfold deliver_data. destruct (alive _); [qss | destruct e; [qss | qfr]]; exact H. Qed.
-Lemma Q_deliver_close f e sid s : Q f s -> Q f (deliver_close e sid s).
+Lemma Q_deliver_data f g e sid p s : Q f g s -> Q f g (deliver_data e sid p s).
+Proof.
+  intro H. unfold deliver_data. destruct (alive _) eqn:Ea; [qss; exact H | destruct e; [| qfr; exact H]].
+  pose proof H as (_ & _ & Hd). destruct (sslots_nil _ (Hd _ Ea)) as (Es & _).
+  rewrite Es. assert (H1 : Q f g (set_stream (key true sid) {| alive := true; half := false; infb := false; sendb := []; sheap := false;
+      recvb := recvb (streams s (key true sid)); cpin := false; pinned := pinned (streams s (key true sid)); scpin := false; rheap := false;
+      pend := pend (streams s (key true sid)) ++ [p] |} s)) by (qss; exact H).
+  destruct H1 as (A & B & C). split; [exact A | split; [| exact C]]. cbn [add_leaked leaked]. cbn [set_stream leaked] in B. rewrite app_nil_r. exact B.
+Qed.
+Lemma Q_deliver_close f g e sid s : Q f g s -> Q f g (deliver_close e sid s).
 Proof. intro H. unfold deliver_close. destruct (alive _); [qss |]; exact H. Qed.
-Lemma Q_deliver f e s q : Q f s -> Q f (deliver e s q).
+Lemma Q_deliver f g e s q : Q f g s -> Q f g (deliver e s q).
 Proof. intro H. unfold deliver. destruct (q_closed q); [qfr; apply Q_deliver_close | apply Q_deliver_data]; exact H. Qed.
-Lemma Q_fold_deliver f e q : forall s, Q f s -> Q f (fold_left (deliver e) q s).
+Lemma Q_fold_deliver f g e q : forall s, Q f g s -> Q f g (fold_left (deliver e) q s).
 Proof. induction q as [|a q IH]; intros s H; cbn [fold_left]; [exact H | apply IH, Q_deliver, H]. Qed.
 
-Lemma Q_step f s l : close_guard s l -> Q f s -> Q f (step' s l).
+Lemma Q_step f g s l : close_guard s l -> Q f g s -> Q f g (step' s l).
 Proof.
   intros G H. pose proof H as (Hf & Hl & Hd). unfold step'. destruct l; cbn [step].
   - unfold do_open. destruct (memk _ _); [exact H |]. qss. exact H.
-  - unfold do_write. destruct (alive _) eqn:Ea; cbn [negb]; [| exact H].
+  - unfold do_write. cbn [close_guard] in G.
+    destruct (alive (streams s (key e sid))) eqn:Ea; cbn [negb andb].
+    2:{ destruct G as [G|G]; [rewrite G; exact H | discriminate]. }
     destruct (_ && _); cbn [negb]; [| exact H]. qss; try (rewrite Ea in Hdead; discriminate). qfr. exact H.
   - unfold do_flush. set (k := key e sid). set (v := streams s k).
     destruct (_ <=? 0); [exact H |].
     assert (P : forall fb, dead_ok (with_send v fb)).
     { intros fb Ha. cbn [with_send alive] in Ha. destruct (sslots_nil v (Hd k Ha)) as (A & B & C & D).
       unfold sslots. cbn [with_send sendb recvb pinned pend]. rewrite B, C, D. reflexivity. }
-    assert (S1 : forall fb, Q f (set_stream k (with_send v fb) s)) by (intro fb; apply Q_set_stream; [apply P | exact H]).
+    assert (S1 : forall fb, Q f g (set_stream k (with_send v fb) s)) by (intro fb; apply Q_set_stream; [apply P | exact H]).
     destruct (is_open v); cbn [negb]; [| qfr; apply S1].
     destruct (_ || _); [apply Q_deliver_data; apply Q_fold_deliver; qfr; qfr; apply S1 |].
     destruct (_ >=? _); [qfr; qfr; apply S1 | qfr; qfr; apply S1].
@@ -531,9 +542,9 @@ Proof.
     destruct (recvb v) as [|a [|a' t]]; [| destruct (rs_slot a) |]; qfr; qss; try (rewrite Ea in Hdead; discriminate); exact H.
   - unfold do_close. set (k := key e sid). set (v := streams s k). destruct (alive v); cbn [negb]; [| exact H].
     set (nv := {| alive := false; half := half v; infb := infb v; sendb := []; sheap := false; recvb := []; cpin := false; pinned := []; scpin := false; rheap := false; pend := [] |}).
-    assert (H2 : Q f (add_free (pslots (pend v) ++ rslots (recvb v) ++ sendb v) (set_stream k nv s))).
+    assert (H2 : Q f g (add_free (pslots (pend v) ++ rslots (recvb v) ++ sendb v) (set_stream k nv s))).
     { qfr. apply Q_set_stream; [intros _; reflexivity | exact H]. }
-    assert (H3 : Q f (if fx s then add_free (pinned v) (add_free (pslots (pend v) ++ rslots (recvb v) ++ sendb v) (set_stream k nv s))
+    assert (H3 : Q f g (if fx s then add_free (pinned v) (add_free (pslots (pend v) ++ rslots (recvb v) ++ sendb v) (set_stream k nv s))
                       else add_leaked (pinned v) (add_free (pslots (pend v) ++ rslots (recvb v) ++ sendb v) (set_stream k nv s)))).
     { destruct (fx s) eqn:Fx; [qfr; exact H2 |]. cbn [close_guard] in G. destruct G as [G|G]; [congruence |].
       fold k v in G. rewrite G. destruct H2 as (A & B & C). split; [exact A | split; [| exact C]].
@@ -547,13 +558,13 @@ Qed.
 Fixpoint guarded (G : st -> label -> Prop) (s : st) (h : list label) : Prop :=
   match h with [] => True | l :: t => G s l /\ guarded G (step' s l) t end.
 
-Lemma Q_run f h : forall s, guarded close_guard s h -> Q f s -> Q f (run s h).
+Lemma Q_run f g h : forall s, guarded close_guard s h -> Q f g s -> Q f g (run s h).
 Proof. induction h as [|l t IH]; intros s G H; cbn [run]; [exact H |]. destruct G as [G1 G2]. apply IH; [exact G2 | apply Q_step; assumption]. Qed.
 
-Lemma Q_init f n qc : Q f (init f n qc).
-Proof. split; [reflexivity | split; [reflexivity | intros k _; reflexivity]]. Qed.
+Lemma Q_init f g n qc : Q f g (init f g n qc).
+Proof. split; [split; reflexivity | split; [reflexivity | intros k _; reflexivity]]. Qed.
 
-Lemma guarded_fixed h : forall s, Q true s -> guarded close_guard s h.
+Lemma guarded_fixed h : forall s, Q true true s -> guarded close_guard s h.
 Proof.
   induction h as [|l t IH]; intros s H; cbn [guarded]; [exact I |].
   assert (G : close_guard s l) by (destruct l; cbn [close_guard]; auto; left; apply H).
@@ -567,7 +578,7 @@ Definition finished (s : st) : Prop :=
 Lemma stream_slots_nil s : (forall k, sslots (streams s k) = []) -> stream_slots s = [].
 Proof. intro H. unfold stream_slots. induction (keys s) as [|a l IH]; cbn [flat_map]; [reflexivity | rewrite H, IH; reflexivity]. Qed.
 
-Lemma finished_all_free f n s : Inv n s -> Q f s -> finished s -> Permutation (free s) (iota n).
+Lemma finished_all_free f g n s : Inv n s -> Q f g s -> finished s -> Permutation (free s) (iota n).
 Proof.
   intros I (Hf & Hl & Hd) (E1 & E2 & E3 & E4). pose proof (inv_perm n s I) as P. unfold all_slots in P.
   rewrite E1, E2, E3, Hl in P. cbn [qslots flat_map app] in P.
@@ -576,20 +587,20 @@ Qed.
 
 Definition all_free (n : nat) (s : st) : Prop := Permutation (free s) (iota n) /\ length (free s) = n.
 
-Theorem partial_thm f n qc h :
-  guarded close_guard (init f n qc) h -> finished (run (init f n qc) h) -> all_free n (run (init f n qc) h).
+Theorem partial_thm f g n qc h :
+  guarded close_guard (init f g n qc) h -> finished (run (init f g n qc) h) -> all_free n (run (init f g n qc) h).
 Proof.
-  intros G F. assert (P : Permutation (free (run (init f n qc) h)) (iota n)).
+  intros G F. assert (P : Permutation (free (run (init f g n qc) h)) (iota n)).
   { eapply finished_all_free; [apply run_inv, init_inv | apply Q_run; [exact G | apply Q_init] | exact F]. }
   split; [exact P |]. rewrite (Permutation_length P). unfold iota. rewrite map_length, seq_length. reflexivity.
 Qed.
 
-Theorem fixed_thm n qc h : finished (run (init true n qc) h) -> all_free n (run (init true n qc) h).
+Theorem fixed_thm n qc h : finished (run (init true true n qc) h) -> all_free n (run (init true true n qc) h).
 Proof. intro F. apply partial_thm; [apply guarded_fixed, Q_init | exact F]. Qed.
 
-(* ---- refutation of the full statement on today's code: the pinned-at-Close history ---- *)
-Definition full_stmt : Prop :=
-  forall n qc h, finished (run (init false n qc) h) -> all_free n (run (init false n qc) h).
+(* ---- regression witnesses: the two former/possible ways of losing slots ---- *)
+Definition full_stmt (f g : bool) : Prop :=
+  forall n qc h, finished (run (init f g n qc) h) -> all_free n (run (init f g n qc) h).
 
 (* client writes two slices' worth and flushes; the server reads a little (fast path: front slice
    pinned), reads across the slice boundary (the first slice is parked in pinnedList), closes without
@@ -597,21 +608,38 @@ Definition full_stmt : Prop :=
 Definition witness_pinned : list label :=
   [Open 1%nat; Write false 1%nat [0; 1] false; Flush false 1%nat [4096; 1904] 1%nat; Poll true;
    Read true 1%nat RBytes 100; Read true 1%nat RBytes 5000; Close true 1%nat; Poll false; Close false 1%nat; Poll true].
+(* the owner closes its stream and then writes into its BufferWriter without ever flushing *)
+Definition witness_write_after_close : list label :=
+  [Open 1%nat; Close false 1%nat; Poll true; Write false 1%nat [0] false].
 
-Lemma full_refuted : ~ full_stmt.
+Lemma witness_refutes f g h (w2 : nat) :
+  keys (run (init f g 4 8) h) = [2; 3]%nat \/ keys (run (init f g 4 8) h) = [2]%nat ->
+  ext (run (init f g 4 8) h) = [] -> q_srv (run (init f g 4 8) h) = [] -> q_cli (run (init f g 4 8) h) = [] ->
+  alive (streams (run (init f g 4 8) h) 2) = false -> alive (streams (run (init f g 4 8) h) 3) = false ->
+  length (free (run (init f g 4 8) h)) <> 4%nat -> ~ full_stmt f g.
 Proof.
-  intro H. specialize (H 4%nat 8 witness_pinned).
-  assert (F : finished (run (init false 4 8) witness_pinned)).
-  { unfold finished. repeat split; try (vm_compute; reflexivity).
-    intro k. destruct (Nat.eq_dec k 2) as [->|N2]; [vm_compute; reflexivity |].
-    destruct (Nat.eq_dec k 3) as [->|N3]; [vm_compute; reflexivity |].
-    assert (E : streams (run (init false 4 8) witness_pinned) k = dead_stream).
-    { apply (proj2 (proj1 (run_inv 4 witness_pinned _ (init_inv false 4 8)))).
-      assert (Ek : keys (run (init false 4 8) witness_pinned) = [2; 3]%nat) by (vm_compute; reflexivity).
-      rewrite Ek. cbn. intuition congruence. }
+  intros Ek E1 E2 E3 A2 A3 L H. specialize (H 4%nat 8 h).
+  assert (F : finished (run (init f g 4 8) h)).
+  { unfold finished. repeat split; try assumption.
+    intro k. destruct (Nat.eq_dec k 2) as [->|N2]; [exact A2 |].
+    destruct (Nat.eq_dec k 3) as [->|N3]; [exact A3 |].
+    assert (E : streams (run (init f g 4 8) h) k = dead_stream).
+    { apply (proj2 (proj1 (run_inv 4 h _ (init_inv f g 4 8)))). destruct Ek as [Ek|Ek]; rewrite Ek; cbn; intuition congruence. }
     rewrite E. reflexivity. }
-  destruct (H F) as [_ L]. vm_compute in L. discriminate.
+  destruct (H F) as [_ L']. contradiction.
 Qed.
 
-Lemma witness_fixed_ok : length (free (run (init true 4 8) witness_pinned)) = 4%nat /\ leaked (run (init false 4 8) witness_pinned) = [0].
-Proof. vm_compute. split; reflexivity. Qed.
+(* the code before a234a74 (recycle() without cleanPinnedList) *)
+Lemma full_refuted : ~ full_stmt false true.
+Proof. apply (witness_refutes false true witness_pinned 0); try (vm_compute; reflexivity); [left; vm_compute; reflexivity | vm_compute; discriminate]. Qed.
+
+(* write operations without a state check: a write after the local Close allocates shared memory that
+   only a later Flush would return *)
+Lemma write_after_close_refuted : ~ full_stmt true false.
+Proof. apply (witness_refutes true false witness_write_after_close 0); try (vm_compute; reflexivity); [right; vm_compute; reflexivity | vm_compute; discriminate]. Qed.
+
+Lemma witness_fixed_ok :
+  length (free (run (init true true 4 8) witness_pinned)) = 4%nat /\ leaked (run (init false true 4 8) witness_pinned) = [0] /\
+  length (free (run (init true true 4 8) witness_write_after_close)) = 4%nat /\
+  sendb (streams (run (init true false 4 8) witness_write_after_close) 2) = [0].
+Proof. vm_compute. repeat split; reflexivity. Qed.
